@@ -143,22 +143,23 @@ func main() {
 func addTxnPoints(list []ast.Stmt, n *int) []ast.Stmt {
 	var out []ast.Stmt
 	for _, s := range list {
-		if stmtCallsTxn(s) {
+		if kind := stmtCallsTxn(s); kind != "" {
 			*n++
-			out = append(out, &ast.ExprStmt{X: &ast.CallExpr{Fun: &ast.SelectorExpr{X: ast.NewIdent("__vs"), Sel: ast.NewIdent("TxnPoint")}}})
+			out = append(out, &ast.ExprStmt{X: &ast.CallExpr{Fun: &ast.SelectorExpr{X: ast.NewIdent("__vs"), Sel: ast.NewIdent("TxnPointKind")},
+				Args: []ast.Expr{&ast.BasicLit{Kind: token.STRING, Value: strconv.Quote(kind)}}}})
 		}
 		out = append(out, s)
 	}
 	return out
 }
 
-func stmtCallsTxn(s ast.Stmt) bool {
+func stmtCallsTxn(s ast.Stmt) string {
 	if _, ok := s.(*ast.BlockStmt); ok {
-		return false
+		return ""
 	}
-	found := false
+	found := ""
 	ast.Inspect(s, func(nd ast.Node) bool {
-		if nd == nil || found {
+		if nd == nil || found != "" {
 			return false
 		}
 		switch x := nd.(type) {
@@ -168,7 +169,7 @@ func stmtCallsTxn(s ast.Stmt) bool {
 			if sel, ok := x.Fun.(*ast.SelectorExpr); ok {
 				switch sel.Sel.Name {
 				case "Update", "View", "Flush", "Commit":
-					found = true
+					found = sel.Sel.Name
 					return false
 				}
 			}
